@@ -173,7 +173,9 @@ func TestVerifC16(t *testing.T) {
 	const zone = "example.test."
 
 	// identifiers; index = key
-	idents := []string{"h0.example.test", "h1.example.test", "h2.example.test", "h3.example.test", "xn--99999999999999.example.test",
+	// (key 3 is an IP identifier: its TLS-ALPN challenge lives under the reverse-mapping name the CA
+	// sends as SNI — RFC 8738 —, its HTTP challenge under the address itself)
+	idents := []string{"h0.example.test", "h1.example.test", "h2.example.test", "192.0.2.33", "xn--99999999999999.example.test",
 		"d0.example.test", "d1.example.test", "d2.example.test"}
 	const badCertKey, firstDNSKey = 4, 5
 	keyOf := map[string]int{}
@@ -182,6 +184,10 @@ func TestVerifC16(t *testing.T) {
 		keyOf[id] = i
 		safeOf[StorageKeys.Safe(id)+".json"] = i
 	}
+	const ipArpa = "33.2.0.192.in-addr.arpa"
+	keyOf[ipArpa] = 3
+	safeOf[ipArpa+".json"] = 3
+	safeOf[StorageKeys.Safe(idents[3])+".json"] = 93 // a token file under the bare address would be a stranger
 	// no DNS traffic: the zone of every record name is already "known"
 	fqdnSOACacheMu.Lock()
 	for _, id := range idents[firstDNSKey:] {
@@ -311,6 +317,9 @@ func TestVerifC16(t *testing.T) {
 		token := fmt.Sprintf("tok%d-%d", nextID, rng.Intn(1<<30))
 		c.chal = acme.Challenge{URL: "https://ca.example/chal/" + token, Status: "pending", Token: token, KeyAuthorization: token + ".thumb",
 			Identifier: acme.Identifier{Type: "dns", Value: idents[key]}}
+		if net.ParseIP(idents[key]) != nil {
+			c.chal.Identifier.Type = "ip"
+		}
 		switch typ {
 		case "h", "a":
 			c.chal.Type = map[string]string{"h": acme.ChallengeTypeHTTP01, "a": acme.ChallengeTypeTLSALPN01}[typ]
@@ -331,6 +340,9 @@ func TestVerifC16(t *testing.T) {
 			}
 			c.solver = dnsWrapped
 			c.rname = key - firstDNSKey
+			if dnsSolver.OverrideDomain != "" {
+				c.rname = 2 // challenge delegation: every record goes to the one delegated name
+			}
 			c.rval = valNum(c.chal.DNS01KeyAuthorization())
 		}
 		return c
@@ -355,6 +367,12 @@ func TestVerifC16(t *testing.T) {
 		freshPorts()
 		// ---- plan: challenges, interleaving, outcomes
 		mode := rng.Intn(10) // 0: everything cancelled at clean-up; 1: unbindable addresses allowed; 2: delete faults
+		// 3: challenge delegation — the TXT records of every name are set on one delegated name
+		dnsSolver.OverrideDomain = ""
+		if mode == 3 {
+			dnsSolver.OverrideDomain = "_acme-challenge." + idents[firstDNSKey+2]
+			o.Stat("histories_with_challenge_delegation", 1)
+		}
 		nch := 1 + rng.Intn(7)
 		var chals []*c16Chal
 		var lastDNS *c16Chal
@@ -365,7 +383,7 @@ func TestVerifC16(t *testing.T) {
 				if mode == 1 && rng.Intn(3) == 0 {
 					is = 2
 				}
-				chals = append(chals, mkChal("h", is, rng.Intn(4), nil))
+				chals = append(chals, mkChal("h", is, rng.Intn(3), nil)) // (key 3, the IP identifier, is TLS-ALPN's)
 			case 1:
 				is := []int{0, 0, 1, 3}[rng.Intn(4)]
 				if mode == 1 && rng.Intn(3) == 0 {
@@ -584,7 +602,11 @@ func TestVerifC16(t *testing.T) {
 				solversMu.Unlock()
 				if ours {
 					d := &net.Dialer{Timeout: 2 * time.Second}
-					conn, err := tls.DialWithDialer(d, "tcp", addrs[c.addr], &tls.Config{ServerName: c.chal.Identifier.Value,
+					sni := c.chal.Identifier.Value
+					if c.chal.Identifier.Type == "ip" {
+						sni = ipArpa
+					}
+					conn, err := tls.DialWithDialer(d, "tcp", addrs[c.addr], &tls.Config{ServerName: sni,
 						NextProtos: []string{acmez.ACMETLS1Protocol}, InsecureSkipVerify: true})
 					okExt := false
 					if err == nil {
@@ -648,7 +670,7 @@ func TestVerifC16(t *testing.T) {
 		for i := 0; i < n; i++ {
 			switch i % 3 {
 			case 0:
-				cs = append(cs, mkChal("h", []int{0, 3}[rng.Intn(2)], i%4, nil))
+				cs = append(cs, mkChal("h", []int{0, 3}[rng.Intn(2)], i%3, nil))
 			case 1:
 				cs = append(cs, mkChal("a", []int{0, 3}[rng.Intn(2)], i%4, nil))
 			default:
